@@ -31,12 +31,12 @@ func (a *AggregationProcess) VerifSnapshot() (heapItems []VerifItem, mapItems []
 		}
 		if it.flowRecord != nil {
 			v.Ready = it.flowRecord.ReadyToSend
-			v.Retries = it.flowRecord.waitForReadyToSendRetries
+			v.Retries = int(it.flowRecord.waitForReadyToSendRetries)
 		}
 		heapItems = append(heapItems, v)
 	}
 	for k, rec := range a.flowKeyRecordMap {
-		v := VerifItem{Key: k, Slot: -1, Index: -2, Ready: rec.ReadyToSend, Retries: rec.waitForReadyToSendRetries}
+		v := VerifItem{Key: k, Slot: -1, Index: -2, Ready: rec.ReadyToSend, Retries: int(rec.waitForReadyToSendRetries)}
 		if it := rec.PriorityQueueItem; it != nil {
 			v.Active, v.Inactive, v.Index = it.activeExpireTime, it.inactiveExpireTime, it.index
 			if it.index >= 0 && it.index < len(a.expirePriorityQueue) && a.expirePriorityQueue[it.index] == it {
